@@ -2,7 +2,8 @@
 """tools/seed_store.py <seed-id> <property> <caught-by(comma)> <missed-first(yes/no)> <note>"""
 import json,sys,shutil,os
 sid,prop,caught,missed,note=sys.argv[1:6]
-src=f'/tmp/seed-{sid}'; dst=f'/verif/seeded/{sid}'
+import glob
+src=f'/tmp/seed2-{sid[:-1]}' if sid.endswith('b') else f'/tmp/seed-{sid}'; dst=f'/verif/seeded/{sid}'
 os.makedirs(dst,exist_ok=True)
 for f in ['patch.diff','demo.diff','demo_cmd.txt']:
     shutil.copy(f'{src}/{f}',f'{dst}/{f}')
